@@ -19,7 +19,8 @@ func init() {
 			"R3 only '+' imports are added — AddNamedImport receives the replacer's own Path, every import replacer of the '+' side is run, and the name used is the captured one unless the metavariable matched an unnamed import; R4 printing never adds or removes imports (FormatOnly is the constant true at both imports.Process sites). " +
 			"R2 also: usesNameAsTopLevel gives no file-dependent answer before the walk (no shortcut through an index the parser built). NOT decided: the package-name guess for unnamed imports (filepath.Base of the path — a heuristic on strings; seed C11-5 changes it and is not detectable from the shape of the code); correctness of usesNameAsTopLevel as a use test (shadowing, Ident.Obj), astutil internals, grouping and comment placement." +
 			" R6 what ImportMatcher.Match records is the file's own import (its four-row decision table)." +
-			" R7 a package name guessed from an import path goes through a module function every return of which is cut at the first non-identifier character (never path.Base / filepath.Base taken raw).",
+			" R7 a package name guessed from an import path goes through a module function every return of which is cut at the first non-identifier character (never path.Base / filepath.Base taken raw)." +
+			" R8 the name looked for before a matched import is deleted is not reset to \"\" behind the successful lookup of the import's record.",
 		Trusted:     append([]string{"astutil.AddNamedImport / DeleteNamedImport touch only the import they are given"}, commonTrusted...),
 		Assumptions: commonAssumptions,
 	})
@@ -47,6 +48,7 @@ func runC11(r *an.Run) {
 	c10ImportTable(r)
 	relabel(r, "R3-import-table", "R6-what-the-matcher-records-is-the-files-import")
 	guessedPackageNameIsAnIdentifier(r, "R7-a-guessed-package-name-is-an-identifier")
+	recordedNameDecidesDeletion(r, "R8-the-recorded-name-decides-whether-a-matched-import-is-still-used")
 }
 
 func c11WhoMayEdit(r *an.Run) {
